@@ -451,6 +451,7 @@ def run_op(sd: SuccessionDiagram, op: dict, timeout_s: float = 20.0) -> tuple[Su
                     CTX.active = other
                     other, _e = run_op(other, o, timeout_s)
             CTX.active = sd
+            CTX.xl = []        # expansions of the second diagram do not belong to this event
             ev["other"] = project(other)
             out = [1 if sd.is_subgraph(other) else 0, 1 if other.is_subgraph(sd) else 0, 1 if sd.is_isomorphic(other) else 0]
             ret = "ok"
